@@ -9,6 +9,9 @@ Inductive c20case :=
 (* a history of finished lookups replayed on the model; the node's cache (most recent first) and the
    statistics of its two routing tables afterwards *)
 | KCache (ops : list cop) (impl_entries : list centry) (impl_main impl_signed : tstats)
+         (* derived statistics of both tables: (size estimate, deviation formula ok, responders based estimate, average
+            subnets); the estimate Info reports *)
+         (der_main der_signed : Z * bool * Z * Z) (info_estimate : Z)
 (* after a workload and a quiet period longer than every request timeout *)
 | KQuiet (lookups puts put_callers get_callers inflight_unexpired calls_without_outcome calls_with_two_outcomes : N).
 
@@ -36,15 +39,26 @@ Definition agg_stats (l : list centry) (main : bool) : tstats :=
     {| dht_count := agg l is_signed one; dht_sum := agg l is_signed e_est; resp_count := agg l is_signed one;
        resp_sum := agg l is_signed e_resp; subnets_sum := agg l is_signed e_subnets |}.
 
+(* the derived statistics are the means of the counters (sum / max count 1, integer division of the f64 sum's integer
+   part; one unit of slack for the 2^-10 fixed point of the observed sums) *)
+Definition mean_ok (sum1024 count reported : Z) : bool :=
+  let m := ((sum1024 / 1024) / Z.max count 1)%Z in (Z.abs (reported - m) <=? 1)%Z.
+Definition derived_ok (st : tstats) (d : Z * bool * Z * Z) : bool :=
+  let '(est, dev_ok, resp, subnets) := d in
+  mean_ok (dht_sum st) (dht_count st) est && dev_ok && mean_ok (resp_sum st) (resp_count st) resp
+  && (subnets =? subnets_sum st / Z.max (resp_count st) 1)%Z.
+
 Definition check20 (c : c20case) : list N :=
   match c with
-  | KCache ops ie im isg =>
+  | KCache ops ie im isg dm ds info =>
       let s := fold_left cstep ops cstate0 in
       let n := length ops in
       (if entries_eqb (c_entries s) ie && stats_close n (c_main s) im && stats_close n (c_signed s) isg then [] else [1]) ++
       (* the property on the node's own numbers: capacity, and statistics = aggregate over what is cached *)
       (if (length ie <=? 1000)%nat && stats_close n (agg_stats ie true) im && stats_close n (agg_stats ie false) isg
           && (0 <=? dht_count im)%Z && (0 <=? resp_count im)%Z && (0 <=? dht_count isg)%Z && (0 <=? resp_count isg)%Z
+          (* what is reported (Info) and what replica selection reads are the means of those aggregates *)
+          && derived_ok im dm && derived_ok isg ds && (info =? fst (fst (fst dm)))%Z
        then [] else [2])
   | KQuiet lookups puts pc gc infl none two =>
       if (lookups =? 0) && (puts =? 0) && (pc =? 0) && (gc =? 0) && (infl =? 0) && (none =? 0) && (two =? 0) then [] else [2]
